@@ -131,7 +131,8 @@ def _structure(
                             node_deps[k2] = set()
                         k = (k1, k2)
                         if (
-                            k not in deps
+                            k1 != k2
+                            and k not in deps
                             and k2 not in node_deps[k1]
                             and k1 not in node_deps[k2]
                             and k1 not in sub_set
